@@ -646,6 +646,7 @@ def core_sim(R, exe, name, num, depth, seed, workers=8, timeout=1500, suffix="")
 
 
 CORE_CFGS = {
+    "mix4": (["A", "B", "C", "D"], {"VP_HOOKS": "A:x,C:s", "VP_CAP": "3", "VP_CTXPERSIST": "1", "VP_SETUP": "loop4", "VP_MAXPAY": "4"}),
     "mixb": (["A", "B"], {"VP_HOOKS": "A:esx,B:x", "VP_FLAGS": "A:RP/-,B:CUS", "VP_CAP": "2", "VP_MAXPAY": "2"}),
     "mix": (["A", "B", "C"], {"VP_HOOKS": "A:esx,B:x", "VP_CAP": "2", "VP_CTXPERSIST": "1", "VP_SETUP": "loop3", "VP_MAXPAY": "3", "VP_NKEYS": "1", "VP_TASKS": "1"}),
     # name: (modules, env)
@@ -687,7 +688,7 @@ CORE_CFGS = {
 }
 
 
-def core_check(prop, tier, seed, quick_cfgs, thorough_cfgs, rule, Dq=5, Dt=7, budget_q=60000, budget_t=4000000, loop_cfgs=(), col_cfgs=(), sim_cfgs=()):
+def core_check(prop, tier, seed, quick_cfgs, thorough_cfgs, rule, Dq=5, Dt=7, budget_q=60000, budget_t=4000000, loop_cfgs=(), col_cfgs=(), sim_cfgs=(), loop_cfgs_thorough=()):
     R = Result(prop, tier, seed)
     exe = build_core()
     quick = tier == "quick"
@@ -706,6 +707,8 @@ def core_check(prop, tier, seed, quick_cfgs, thorough_cfgs, rule, Dq=5, Dt=7, bu
         tasks.append(lambda name=name, mods=mods, env=env, mp=mp: core_run(
             R, exe, "Core_mc_%s.cfg" % name, mods, env, Dq if quick else Dt, budget_q if quick else budget_t,
             1500 if quick else 100000, 40, seed, maxpay=mp, workers=max(2, 12 // len(cfgs))))
+    if not quick and not os.environ.get("VP_ONLY"):
+        loop_cfgs = list(loop_cfgs) + list(loop_cfgs_thorough)
     for name in loop_cfgs:
         # the same programs driven through blocking m_ctx_loop() calls instead of dispatch calls (C03: same deliveries)
         mods, env = CORE_CFGS[name]
@@ -804,7 +807,7 @@ def c03(prop, tier, seed):
     return core_check(prop, tier, seed, ["fdev", "ps2q", "subos", "kev", "kevl", "tsk", "rearm"], ["fdev", "ps2q", "subos", "kev", "kevl", "tsk", "rearm", "ps3", "pub2"],
                       "Focus: events of descriptor / timer / pubsub / signal / path / pid / task sources reach their owner with the registration userdata only while RUNNING; one-shot removal; poll batches of several sources in every order; errno left behind by callbacks; loop ends only on quit / no running module. "
                       "Configurations marked .loop are replayed a second time in loop mode: the loop is driven by blocking m_ctx_loop() calls (top-level steps executed from inside the wrapped epoll_wait, the stopping dispatch being what m_ctx_loop does before returning the quit code) and must show the same deliveries, states and return code.",
-                      Dq=5, Dt=7, loop_cfgs=["ps2q", "fdev", "life"], sim_cfgs=["mix"])
+                      Dq=5, Dt=7, loop_cfgs=["ps2q", "fdev", "life"], loop_cfgs_thorough=["tsk", "kev", "rearm", "subos"], sim_cfgs=["mix"])
 
 
 @check("C20")
@@ -831,7 +834,7 @@ def c04(prop, tier, seed):
                       "or the loop stops (the function returns only when the library waits for it, or afterwards if it does not wait)."
                       " Configurations marked .sim are too large to enumerate: TLC's simulation mode samples behaviours (all features at once: 3 modules "
                       "with hooks, priorities, batching, stash, become, token bucket, descriptor / timer / signal / task sources, tick, retained events), "
-                      "the monitors are checked on every sampled state and every sampled behaviour is replayed.", Dq=5, Dt=6, sim_cfgs=["mix", "mixb"])
+                      "the monitors are checked on every sampled state and every sampled behaviour is replayed.", Dq=5, Dt=6, sim_cfgs=["mix", "mixb", "mix4"])
 
 
 # ------------------------------------------------------------------------------------------
